@@ -880,7 +880,8 @@ def gen_C12(rng, tier):
 def gen_C13(rng, tier):
     cases = []
     # long bursts of `Interrupted` at one position are still transient: any bounded retry count is a defect
-    scheds = ['c1', 'c1,i', 'c2,i,c1,c3', 'i,i,c3', 'c7,c1,i', 'c%d' % rng.randrange(1, 9), ','.join(['i'] * 70 + ['c5']), ','.join(['c9'] + ['i'] * 1100 + ['c2'])]
+    scheds = ['c1', 'c1,i', 'c2,i,c1,c3', 'i,i,c3', 'c7,c1,i', 'c%d' % rng.randrange(1, 9)]
+    bursts = [','.join(['i'] * 70 + ['c5']), ','.join(['c9'] + ['i'] * 1100 + ['c2'])]     # costly per transfer: used with few offsets only
     for ci in range(16 if tier == 'quick' else 80):
         L = ['case C13-%d' % ci]
         zoo, kinds = structure_zoo(rng, tier, small=(ci % 2 == 0))
@@ -889,6 +890,9 @@ def gen_C13(rng, tier):
             L.append('q %d trunc all' % oid) if ci % 2 == 0 else L.append('q %d trunc %s' % (oid, lst(sorted(rng.sample(range(0, 200000), 60)) + list(range(0, 40)))))
             L.append('q %d sched %s' % (oid, rng.choice(scheds)))
             L.append('q %d wfail %s %s' % (oid, 'all' if ci % 2 == 0 else lst(list(range(0, 30)) + sorted(rng.sample(range(0, 200000), 40))), rng.choice(['-'] + scheds)))
+            if ci % 4 == 1 or (ci % 2 == 0 and oid % 3 == ci % 3):
+                L.append('q %d sched %s' % (oid, bursts[0]))
+                L.append('q %d wfail %s %s' % (oid, lst([0, 1, 8, 9, 17, 40, 10**7]), rng.choice(bursts)))
         cases.append(L)
     n = 600000 + rng.randrange(0, 64); v = rand_bits(rng, n, 0.3)
     L = ['case C13-large-interrupted', 'new 0 bv from_bits %s' % bits_lit(n, v), 'new 1 cv from_int 5 70000 9']
